@@ -1082,7 +1082,7 @@ func main() {
 		}
 	}
 	faults := map[string]int64{}
-	for _, k := range []string{"drop", "dup", "delay", "seg", "coalesce", "timeskip", "fault"} {
+	for _, k := range []string{"drop", "dup", "delay", "seg", "coalesce", "timeskip", "stall", "fault"} {
 		if agg.NonBoring[k] > 0 {
 			faults[k] = agg.NonBoring[k]
 		}
@@ -1092,7 +1092,7 @@ func main() {
 		faults["clock_jumps_and_idle_time_advances"] = n
 	}
 	for name, n := range agg.Probes {
-		for _, pre := range []string{"cut_", "stop_", "close_", "local_close", "tcp_client_aborted", "stream_reset", "stream_fin", "dgram_", "query_context_cancelled", "keep_alive", "window_full", "short_read"} {
+		for _, pre := range []string{"cut_", "stop_", "close_", "local_close", "tcp_client_aborted", "stream_reset", "stream_fin", "dgram_", "query_context_cancelled", "keep_alive", "window_full", "short_read", "ill_formed_", "peer_sets_reserved", "peer_paused", "refused_two_record", "start_stop_cycle"} {
 			if strings.HasPrefix(name, pre) && n > 0 {
 				faults[name] = n
 			}
